@@ -41,8 +41,8 @@ type walker struct {
 	// function) with a subject-building function value and, possibly, the
 	// includeDeleted flag; nil when f recurses itself
 	rec      *kit.Func
-	recCall  *ast.CallExpr // f's call of rec
-	otherIDs []*types.Var  // f's id parameters that appear in the subject (in token order)
+	recCall  *ast.CallExpr             // f's call of rec
+	otherIDs []*types.Var              // f's id parameters that appear in the subject (in token order)
 	bind     map[types.Object]ast.Expr // rec's parameters and receiver fields -> what f supplies
 }
 
